@@ -232,6 +232,10 @@ Proof. exact gen_on_order_error_is_model. Qed.
 Theorem C06_code_changes_accumulate : gen_changes_acquire = model_changes_acquire.
 Proof. exact gen_changes_acquire_is_model. Qed.
 
+(* an OrderError swallowed by the user's handler is re-raised for formula AND trigger-formula cells *)
+Theorem C06_code_pending_order_error : gen_pending_reraise = model_pending_reraise.
+Proof. exact gen_pending_reraise_is_model. Qed.
+
 Theorem C06_code_need_transition : forall P s c d s',
   exec P (LNeed c d) s = Some s' ->
   locked s' = c :: locked s /\ stack s' = (d, Some c) :: stack s /\ dirty s' = dirty s.
